@@ -36,7 +36,7 @@ func init() {
 		Run:         runC19,
 		Floors: func(tier string) map[string]int {
 			return map[string]int{"requests": 1500, "reads_with_cookie_forwarded": 60, "reads_timed_out_504": 30, "replica_writes_redirected": 100, "no_primary_503": 20,
-				"primary_write_cookies": 60, "parked_then_released": 10, "passthrough_forwarded": 60, "absent_db_requests": 20}
+				"primary_write_cookies": 60, "parked_then_released": 10, "passthrough_forwarded": 60, "absent_db_requests": 20, "requests_with_query": 200}
 		},
 	})
 }
@@ -107,10 +107,14 @@ func startProxy(n *cluster.CNode, target string) (*lhttp.ProxyServer, error) {
 	p.Target = target
 	p.DBName = "db"
 	p.Addr = "127.0.0.1:0"
-	pt, _ := lhttp.CompileMatch("/static/*")
-	af, _ := lhttp.CompileMatch("/forward/*")
-	p.Passthroughs = append(p.Passthroughs, pt)
-	p.AlwaysForward = append(p.AlwaysForward, af)
+	for _, e := range []string{"/static/*", "*.png"} {
+		pt, _ := lhttp.CompileMatch(e)
+		p.Passthroughs = append(p.Passthroughs, pt)
+	}
+	for _, e := range []string{"/forward/*", "*.fwd"} {
+		af, _ := lhttp.CompileMatch(e)
+		p.AlwaysForward = append(p.AlwaysForward, af)
+	}
 	p.PollTXIDTimeout = 150 * time.Millisecond
 	p.PrimaryRedirectTimeout = 100 * time.Millisecond
 	if err := p.Listen(); err != nil {
@@ -328,7 +332,16 @@ func runC19(c *core.Case) {
 		} else if c.Rng.IntN(3) == 0 {
 			method = "GET"
 		}
-		path := map[string]string{"plain": "/items/" + fmt.Sprint(i), "passthrough": "/static/app.js", "forward": "/forward/" + fmt.Sprint(i)}[pc]
+		// the class of a request is decided by its path alone; a query string that
+		// happens to look like a configured pattern changes nothing
+		path := map[string][]string{
+			"plain":       {"/items/" + fmt.Sprint(i), "/items/" + fmt.Sprint(i) + "?thumb=a.png", "/items/" + fmt.Sprint(i) + "?next=x.fwd", "/items/" + fmt.Sprint(i) + "?u=/static/x&v=/forward/y"},
+			"passthrough": {"/static/app.js", "/img/" + fmt.Sprint(i) + ".png", "/static/app.js?v=3"},
+			"forward":     {"/forward/" + fmt.Sprint(i), "/api/" + fmt.Sprint(i) + ".fwd", "/forward/" + fmt.Sprint(i) + "?q=1"},
+		}[pc][c.Rng.IntN(3+map[string]int{"plain": 1}[pc])]
+		if strings.Contains(path, "?") {
+			c.Count("requests_with_query", 1)
+		}
 		cc := cookieClasses[c.Rng.IntN(len(cookieClasses))]
 		if i >= 56 {
 			cc = "ahead"
